@@ -174,6 +174,8 @@ func (tmg *TCPMuxGroup) worker() {
 			tmg.acceptCh <- c
 		})
 		if err != nil {
+			// the group is closed: nobody will take this connection
+			_ = c.Close()
 			return
 		}
 	}
